@@ -35,11 +35,12 @@ def _fam_result(fr, sc):
                 violations=fr.viol, devs=fr.devs)
 
 
-def cross(gen, name):
+def cross(gen, name, other="alloc"):
     def run(prop, tier):
         from . import tlc as T
         sc = gen(tier)
-        fr = E.cross_build(name, sc, "std", "alloc", prop="C18", jobs=10, known=T.open_deviations())
+        fr = E.cross_build(name, sc, "std", other, prop="C18", jobs=10, known=T.open_deviations(),
+                           stateless_only=(other == "none"))
         return _fam_result(fr, sc)
     return run
 
@@ -171,10 +172,14 @@ PLANS = {
             mc("MC_Parser", "MC_Parser_cap.cfg", workers=6)],
         builds=ALL3,
         families=[fam("capacity", F.fam_capacity), fam("randmsg", F.fam_random_messages, builds=("none", "alloc")),
+                  fam("textsmall", F.fam_text_small),
                   fam("frag", F.fam_frag, twin_merge=E.tag_twin_merge, builds=("none", "alloc")),
                   fam("text", F.fam_text, builds=("none",), tier="thorough"),
                   fam("varlen", F.fam_varlen, builds=("none", "alloc"))],
         custom=[dict(run=cross(F.fam_capacity, "capacity")), dict(run=cross(F.fam_random_messages, "randmsg")),
+                dict(run=cross(F.fam_text_small, "textsmall")),
+                dict(run=cross(F.fam_text_small, "textsmall", "none")), dict(run=cross(F.fam_random_messages, "randmsg", "none")),
+                dict(run=cross(F.fam_capacity, "capacity", "none")),
                 dict(run=cross(F.fam_seq, "seq")), dict(run=cross(F.fam_grammar, "grammar")),
                 dict(run=walk_none), dict(run=walk_alloc)],
         rule="Equiv over all histories of the three lock-step builds (negative control: number advanced before the append); each "
